@@ -94,6 +94,9 @@ def data_lines(text):
 
 class C05(Check):
     pid = "C05"
+    level_text = (
+        "Bounded exhaustive over assemblies from small alphabets and over every single-column deletion / token substitution of every canonical line; round trips compared as objects and as bytes."
+    )
     technique = (
         "exhaustive scope enumeration on the real parsers/formatters: all assemblies over small row/name/header alphabets, "
         "all single-column deletions and bad-token substitutions of every canonical line; asm-format CLI slice"
